@@ -60,7 +60,7 @@ def quasiCalls : Nat → Datum → Nat → List Bool
   | 0, _, _ => []
   | fuel+1, e, depth =>
     match e with
-    | .vec elems => quasiElems fuel elems depth
+    | .vec elems => false :: quasiElems fuel elems depth   -- the compiler's own non-tail call of `(vector)` that allocates the fresh vector
     | .pair car _ =>
       let isUnq := car.isSymStr ['u', 'n', 'q', 'u', 'o', 't', 'e']
       if isUnq && depth == 0 then
